@@ -994,4 +994,5 @@ func runC12(c *Ctx) {
 	checkBatchDistributesAllKeys(c, "done-splits-only.batch-distributes-all")
 	checkCollectSplitsAlwaysLists(c, "commit.splits-from-store")
 	checkStateToKeyTable(c, "no-overwrite.state-to-key")
+	checkBundleIDNeverReset(c, "commit.bundle-id-never-reset")
 }
